@@ -90,6 +90,29 @@ def templates(rnd):
     return out
 
 
+def random_orders(rnd, k):
+    """ordering-tie stream: 4-6 small fields, some tied together by != constraints (so that several rand sets and unconstrained
+    fields occur), and 1-4 solve_order declarations (single fields or lists on either side) oriented along a random permutation
+    (acyclic); always satisfiable.  No histogram is judged on these; they feed the ordering tie and the C01/C02 oracle."""
+    n = rnd.randint(4, 6)
+    names = ["f%d" % i for i in range(n)]
+    perm = names[:]
+    rnd.shuffle(perm)
+    rank = {x: i for i, x in enumerate(perm)}
+    stmts = []
+    for _ in range(rnd.randint(1, n)):
+        a, b = rnd.sample(names, 2)
+        stmts.append(["expr", ["bin", "Ne", F(a), F(b)]])
+    for _ in range(rnd.randint(1, 4)):
+        grp = rnd.sample(names, rnd.randint(2, min(4, n)))
+        grp.sort(key=lambda x: rank[x])
+        cut = rnd.randint(1, len(grp) - 1)
+        bef, aft = grp[:cut], grp[cut:]
+        side = lambda l: F(l[0]) if len(l) == 1 and rnd.random() < 0.7 else [F(x) for x in l]
+        stmts.insert(rnd.randint(0, len(stmts)), ["solve_order", side(bef), side(aft)])
+    return ("random_orders_%d" % k, [(x, 3, False) for x in names], stmts, {})
+
+
 def mk_scenario(t, ncalls):
     name, fields, stmts, feas = t[:4]
     extra = t[4] if len(t) > 4 else {}
@@ -140,6 +163,8 @@ def run(ctx):
     ncalls = 360 if ctx.quick() else 2400
     reps = 1 if ctx.quick() else 4
     scs = [mk_scenario(t, ncalls) for _ in range(reps) for t in templates(rnd)]
+    n_fixed = len(scs)
+    scs += [mk_scenario(random_orders(rnd, k), 3) for k in range(60 if ctx.quick() else 600)]
     obs = core.run_impl_parallel(ctx, "solve_impl.py", scs, nchunks=min(core.NCPU, len(scs)))
     evals = 0
     hist_out = []
@@ -247,7 +272,7 @@ def run(ctx):
                     ctx.tie_broken.append("Rand/Order.v rand_order != rs.rand_order_l (template %s): deps %s fields %s code %s"
                                           % (order_cases[k], deps, flds, groups))
     # constraints still hold / satisfiability unchanged: the C01/C02 oracle on the first calls of every template
-    short = [dict(s, ops=s["ops"][:9]) for s in scs[:len(templates(random.Random(0)))]
+    short = [dict(s, ops=s["ops"][:9]) for s in scs[:len(templates(random.Random(0)))] + scs[n_fixed:]
              if all(f["kind"] == "scalar" for f in s["classes"][0]["fields"])]      # (lists: C04's oracle)
     results, crashed = solve_common.evaluate(ctx, short, "c20")
     for si, oi, code, res in results:
